@@ -36,9 +36,9 @@ Pairs == UNION {{[s |-> s, t |-> x[1], tx |-> x[2]] : x \in Reach({<<s, {}>>}, M
 
 PathUnion(pp) == (Paths(pp.s) \cup Paths(pp.t)) \cup {<<>>}
 FilterFamily(P) == ({F \in SUBSET P : Cardinality(F) <= MaxFilter} \cup {P, P \ {<<>>}}) \ {{}}
-Query(pp, f, iu, wu) == [s |-> pp.s, t |-> pp.t, tx |-> SetToSeq(pp.tx), f |-> f, iu |-> iu, wu |-> wu]
-SpecObs(q) == LET r == SetToSeq(SpecOut(q, FALSE)) w == SetToSeq(SpecOut(q, TRUE))
-              IN [chk |-> r, inv |-> r, old |-> r, ds |-> w, wt |-> w]
+Query(pp, f, iu, wu) == [tx |-> SetToSeq(pp.tx), f |-> f, iu |-> iu, wu |-> wu]
+SpecObs(x, q) == LET r == SetToSeq(SpecOut(x, q, FALSE)) w == SetToSeq(SpecOut(x, q, TRUE))
+                 IN [chk |-> r, inv |-> r, old |-> r, ds |-> w, wt |-> w]
 
 \* The pairs are computed once (TLCSet in an ASSUME publishes the value to every worker).  Every pair is an initial
 \* state with ph = 0; its only step sets ph = 1, and the laws are evaluated there - so the (sequential) computation of
@@ -52,22 +52,25 @@ Next == ph = 0 /\ ph' = 1 /\ p' = p
 FullQueries(pp) == {Query(pp, <<"all">>, TRUE, TRUE), Query(pp, <<"all">>, FALSE, FALSE),
                     Query(pp, <<"only", SetToSeq(PathUnion(pp) \ {<<>>})>>, TRUE, TRUE)}
 LawsHoldOnSpec == ph = 1 =>
+    LET x == Pair(p.s, p.t) g == GitPair(x) IN
     /\ ValidTree(p.s) /\ ValidTree(p.t)
     \* the declarative core, stated directly: Diff and Apply are inverse; the filter rule yields parent-complete deltas
     \* that contain every change inside the filter
-    /\ Apply(p.s, Diff(p.s, p.t), p.t) = p.t
+    /\ Apply(p.s, x.d, p.t) = p.t
     /\ \A F \in FilterFamily(PathUnion(p)) :
-          LET R == Restrict(p.s, p.t, F) q == Query(p, <<"only", SetToSeq(F)>>, FALSE, FALSE)
-          IN ParentsValid(Apply(p.s, R, p.t)) /\ CompleteOk(q, R) /\ R \subseteq Diff(p.s, p.t)
-    /\ \A q \in FullQueries(p) : /\ Failed(q, SpecObs(q)) = {}
-                                 /\ GitFailed(q, [rt |-> SetToSeq(GitSpecOut(q))]) = {}
-                                 /\ DriftKeys(q, SpecObs(q)) = {}
+          LET R == Restrict(x, F) q == Query(p, <<"only", SetToSeq(F)>>, FALSE, FALSE)
+              W == RestrictTo(x, EmittedW(x, F))          \* the working-tree flavour of the filter
+          IN /\ ParentsValid(Apply(p.s, R, p.t)) /\ CompleteOk(x, q, R) /\ R \subseteq x.d
+             /\ ParentsValid(Apply(p.s, W, p.t)) /\ CompleteOk(x, q, W) /\ R \subseteq W
+    /\ \A q \in FullQueries(p) : /\ Failed(x, q, SpecObs(x, q)) = {}
+                                 /\ GitFailed(g, q, [rt |-> SetToSeq(GitSpecOut(g))]) = {}
+                                 /\ DriftKeys(x, q, SpecObs(x, q)) = {}
 \* anti-vacuity witnesses: TLC must find these states (one concrete pair each, so that few traces are printed)
 Full == HomeTree(Ids)
 At(s, t, tx) == ph = 1 /\ p.s = s /\ p.t = t /\ p.tx = tx
 \* adding d/ and d/a, filter {d/a}: the delta must also carry the added parent, which the filter does not select
 WitnessParentsRule == ~(/\ At(HomeTree({"fa"}), HomeTree({"fa", "dd", "fda"}), {})
-                        /\ \E c \in Restrict(p.s, p.t, {<<"d", "a">>}) : c.id \notin Selected(p.s, p.t, {<<"d", "a">>}))
+                        /\ \E c \in Restrict(Pair(p.s, p.t), {<<"d", "a">>}) : c.id \notin Selected(Pair(p.s, p.t), {<<"d", "a">>}))
 \* renaming d/ leaves the entry of d/a unchanged while its path changes
 WitnessDirRenameChild == ~(/\ At(Full, [Full EXCEPT !["dd"].name = "c"], {})
                            /\ p.s["fda"] = p.t["fda"] /\ Path(p.s, "fda") # Path(p.t, "fda")
@@ -77,12 +80,12 @@ WitnessSwap == ~(/\ At(Full, [Full EXCEPT !["fa"].name = "b", !["fb"].name = "a"
 WitnessKindChange == ~(/\ At(Full, [Full EXCEPT !["fa"] = Entry(ROOT, "a", "directory", FALSE, 0)], {})
                        /\ ChangeOf(p.s, p.t, "fa").cc)
 WitnessExtras == ~(/\ At(Full, [Full EXCEPT !["fb"].content = 1], {ROOT})
-                   /\ Cardinality(SpecOut(Query(p, <<"all">>, FALSE, TRUE), TRUE)) = 2)
+                   /\ Cardinality(SpecOut(Pair(p.s, p.t), Query(p, <<"all">>, FALSE, TRUE), TRUE)) = 2)
 \* the filter rule guarantees parents, not unique names: a filtered delta can put an entry on a still-occupied name
 \* (a -> c, b -> a, filter {b}: the delta moves b onto a while a is still there)
 WitnessNameCollision == ~(/\ At(HomeTree({"fa", "fb"}), [HomeTree({"fa", "fb"}) EXCEPT !["fa"].name = "c", !["fb"].name = "a"], {})
-                          /\ ~NamesUnique(Apply(p.s, Restrict(p.s, p.t, {<<"b">>}), p.t))
-                          /\ ParentsValid(Apply(p.s, Restrict(p.s, p.t, {<<"b">>}), p.t)))
+                          /\ ~NamesUnique(Apply(p.s, Restrict(Pair(p.s, p.t), {<<"b">>}), p.t))
+                          /\ ParentsValid(Apply(p.s, Restrict(Pair(p.s, p.t), {<<"b">>}), p.t)))
 Export == JsonSerialize(IOEnv.VF_OUT, SetToSeq({[s |-> x.s, t |-> x.t, tx |-> SetToSeq(x.tx), paths |-> SetToSeq(PathUnion(x))] : x \in AllPairs}))
 ASSUME IF "VF_OUT" \in DOMAIN IOEnv THEN Export ELSE TRUE
 =============================================================================
